@@ -186,7 +186,7 @@ def tla_value(s):
     return val()
 
 
-def run_sharded(module, cfg_text, shard_files, name, env_key="TRACE_FILE", timeout=3600, heap="3g"):
+def run_sharded(module, cfg_text, shard_files, name, env_key="TRACE_FILE", timeout=3600, heap="1500m"):
     """One single-worker TLC process per shard file, in parallel. Returns list of (rc,out)."""
     wd = workdir(name)
 
